@@ -15,3 +15,4 @@ import DeepModel.Props.C09
 #print axioms C09.c09_refuse
 #print axioms C09.c09_closed_stays
 #print axioms C09.c09_flush_closes
+#print axioms C09.c09_executor_rejection
